@@ -342,6 +342,13 @@ def marked(name):
     return SOURCE_MARK in name
 
 
+def split_lines(text):
+    # type: (str) -> list[str]
+    """Lines as the parser counts them: str.splitlines() also breaks at form
+    feeds and other separators, which shifts every position after one"""
+    return text.replace('\r\n', '\n').replace('\r', '\n').split('\n')
+
+
 class Source(object):
     def __init__(self, source, filename=None, position=None):
         # type: (str, str | None, tuple[int, int] | None) -> None
@@ -349,7 +356,7 @@ class Source(object):
         self.filename = filename or '<string>'
         if position:
             ln, col = position
-            lines = source.splitlines() or ['']
+            lines = split_lines(source)
             if ln > len(lines):
                 lines.append('')
             line = lines[ln-1]
@@ -371,7 +378,7 @@ class Source(object):
     @cached_property
     def lines(self):
         # type: () -> list[str]
-        return self.source.splitlines() or ['']
+        return split_lines(self.source)
 
 
 def dump_flows(scope, fd=None):
